@@ -472,8 +472,13 @@ func (c *c07Case) emitLedger() *c07Ledger {
 		c.h.Obs("%s", s)
 	}
 	// the decidable hypotheses of the Lean theorems, evaluated on the harness' own record of the history:
-	// histWFB (amounts >= 0, inventories are maps: true by construction of the Go types) and histExact
+	// histWFB (amounts >= 0, inventories are maps: true by construction of the Go types), histExact and histSched
 	c.h.Obs("x 1 %d %d", vB(c.histX), vB(c.sched))
+	c.checkHyp(l)
+	return l
+}
+
+func (c *c07Case) checkHyp(l *c07Ledger) {
 	if c.sched {
 		c.h.Tag("hyp:histSched")
 		// sched_no_overcommit, evaluated on the implementation: in such a history no device is over-committed
@@ -492,7 +497,26 @@ func (c *c07Case) emitLedger() *c07Ledger {
 	} else {
 		c.h.Tag("hyp:not-histExact")
 	}
-	return l
+}
+
+// histSched: the new inventory (c.inv) does not go below what is in use
+func (c *c07Case) noteRefresh(before *c07Ledger, invalidate bool) {
+	for _, key := range before.rowKeys() {
+		row := before.rows[key]
+		var nt c07Vals
+		for _, d := range c.inv[key[0]] {
+			if d.minor == key[1] && d.healthy && !invalidate {
+				for k := 0; k < c07D; k++ {
+					nt[k] = d.res.val(k)
+				}
+			}
+		}
+		for k := 0; k < c07D; k++ {
+			if row.u[k] > nt[k] {
+				c.sched = false
+			}
+		}
+	}
 }
 
 func c07DistinctMinors(al []c07Alloc) bool {
@@ -724,23 +748,7 @@ func (c *c07Case) applyInventory(invalidate bool) {
 	}
 	h.Op("ref %d %s", n, strings.Join(toks, " "))
 	before := c.cur
-	// histSched: the new inventory does not go below what is in use
-	for _, key := range before.rowKeys() {
-		row := before.rows[key]
-		var nt c07Vals
-		for _, d := range c.inv[key[0]] {
-			if d.minor == key[1] && d.healthy && !invalidate {
-				for k := 0; k < c07D; k++ {
-					nt[k] = d.res.val(k)
-				}
-			}
-		}
-		for k := 0; k < c07D; k++ {
-			if row.u[k] > nt[k] {
-				c.sched = false
-			}
-		}
-	}
+	c.noteRefresh(before, invalidate)
 	if h.Guard(func() {
 		if invalidate {
 			c.cache.invalidateNodeDevice(dev)
@@ -2188,4 +2196,198 @@ func TestVerifC07Path(t *testing.T) {
 	h.Close("real scheduling path on one node with 1-4 GPUs (16/80 units of memory, unhealthy devices): 3-9 steps of PreFilter+Filter+Reserve of a pod whose SPEC requests " +
 		"nvidia.com/gpu, koordinator.sh/gpu, gpu-core+gpu-memory-ratio (single, fractional, multi-GPU), gpu-memory-ratio only, gpu-core+gpu-memory; informer confirmation, Unreserve, pod deletion, health refresh; " +
 		"VERIF_C07_HETERO / VERIF_C07_STALE add heterogeneous GPUs / foreign annotation edits. non-trivial = at least one pod was reserved; distinct by op list")
+}
+
+
+// ---------------------------------------------------------------------------------------------------------------
+// C07 exhaustive small-scope stream (thorough tier): EVERY history of 1..4 ops over 2 RDMA devices (minors 0, 1),
+// 2 pods and amounts {0, 50, 100}:
+//   add(pod, minor, amount) 12, remove(pod, minor, amount - caller supplied, anything) 12,
+//   refresh(total of minor 0, total of minor 1) 9, allocate(request 50|100, nil scorer)+commit for a pod 4   = 37 ops.
+// Every prefix of a history is itself a case, so only the FINAL ledger is observed (one op line, one observation
+// line per case) and the ledger oracle runs on the last step (before = ledger before the last op).
+// ---------------------------------------------------------------------------------------------------------------
+
+type c07XOp struct{ code, a, b, x int }
+
+func TestVerifC07Exhaustive(t *testing.T) {
+	h := vOpen("C07")
+	if h == nil {
+		t.Skip("VERIF_OUT not set")
+	}
+	var alphabet []c07XOp
+	amounts := []int{0, 50, 100}
+	for p := 1; p <= 2; p++ {
+		for m := 0; m <= 1; m++ {
+			for _, a := range amounts {
+				alphabet = append(alphabet, c07XOp{0, p, m, a}, c07XOp{1, p, m, a})
+			}
+		}
+	}
+	for _, a := range amounts {
+		for _, b := range amounts {
+			alphabet = append(alphabet, c07XOp{2, a, b, 0})
+		}
+	}
+	for p := 1; p <= 2; p++ {
+		for _, q := range []int{50, 100} {
+			alphabet = append(alphabet, c07XOp{3, p, q, 0})
+		}
+	}
+	maxLen := vEnvInt("VERIF_C07_XLEN", 4)
+	const T = 1 // rdma
+	idx := 0
+	run := func(hist []c07XOp) {
+		r := h.Begin(idx)
+		idx++
+		if r == nil {
+			return
+		}
+		c := &c07Case{h: h, r: r, cache: newNodeDeviceCache(), exact: true, histX: true, sched: true, cur: &c07Ledger{rows: map[[2]int]*c07Row{}, pods: map[[2]int]map[int]c07Vals{}}}
+		for tt := 0; tt < 3; tt++ {
+			c.live[tt] = map[int][]c07Alloc{}
+		}
+		c.inPlay = []int{T}
+		c.da[T] = 1
+		toks := make([]string, 0, len(hist))
+		var allocs []string
+		var before *c07Ledger
+		kind := ""
+		panicked := false
+		for _, op := range hist {
+			toks = append(toks, fmt.Sprintf("%d %d %d %d", op.code, op.a, op.b, op.x))
+			before = c.cur
+			if h.Guard(func() {
+				switch op.code {
+				case 0, 1:
+					g := c07Groups{T: []c07Alloc{{minor: op.b, vec: c07Vec{int64(op.x), -1, -1}}}}
+					_, isLive := c.live[T][op.a]
+					add := op.code == 0
+					switch {
+					case add && isLive:
+						kind = "dup"
+					case add:
+						kind = "raw-add"
+					case isLive:
+						kind = "release"
+					default:
+						kind = "absent"
+					}
+					if r.Bool() { // Reserve / Unreserve style
+						nd := c.cache.getNodeDevice(c07Node, true)
+						nd.lock.Lock()
+						nd.updateCacheUsed(g.api(), c07Pod(op.a, nil, c07Node), add)
+						nd.lock.Unlock()
+					} else if add {
+						c.cache.onPodAdd(c07Pod(op.a, g.api(), c07Node))
+					} else {
+						c.cache.onPodDelete(c07Pod(op.a, g.api(), c07Node))
+					}
+					if add {
+						c.noteAdd(T, op.a, g[T], c.cur)
+					} else {
+						c.noteRemove(T, op.a, g[T])
+					}
+				case 2:
+					kind = "refresh"
+					c.inv[T] = []c07Dev{{minor: 0, healthy: true, res: c07Vec{int64(op.a), -1, -1}, numa: -1}, {minor: 1, healthy: true, res: c07Vec{int64(op.b), -1, -1}, numa: -1}}
+					c.noteRefresh(c.cur, false)
+					dev := &schedulingv1alpha1.Device{ObjectMeta: metav1.ObjectMeta{Name: c07Node}}
+					for _, d := range c.inv[T] {
+						minor := int32(d.minor)
+						dev.Spec.Devices = append(dev.Spec.Devices, schedulingv1alpha1.DeviceInfo{Type: c07Types[T], Minor: &minor, Health: true, Resources: c07RL(T, d.res), UUID: fmt.Sprintf("u-%d", d.minor)})
+					}
+					c.cache.updateNodeDevice(c07Node, dev)
+				default:
+					nd := c.cache.getNodeDevice(c07Node, true)
+					q := &c07Request{t: T, req: c07Vec{int64(op.b), -1, -1}, desired: 1}
+					reqRL := c07RL(T, q.req)
+					ctx := &requestContext{
+						pod: c07Pod(900, nil, c07Node), node: &corev1.Node{},
+						requestsPerInstance:       map[schedulingv1alpha1.DeviceType]corev1.ResourceList{c07Types[T]: reqRL},
+						desiredCountPerDeviceType: map[schedulingv1alpha1.DeviceType]int{c07Types[T]: 1},
+						required:                  map[schedulingv1alpha1.DeviceType]sets.Int{}, preferred: map[schedulingv1alpha1.DeviceType]sets.Int{},
+						nodeDevice: nd,
+					}
+					nd.lock.RLock()
+					al, st := allocateDevices(ctx, nd, c07Types[T], reqRL, 1, nil)
+					nd.lock.RUnlock()
+					res := c07ResultOf(T, al, !st.IsSuccess())
+					c.checkAlloc(q, res, c07Vals{int64(op.b), 0, 0}, 1, 1, true)
+					if !res.ok || len(res.minors) == 0 {
+						allocs = append(allocs, "-1")
+						kind = "absent" // nothing happens to the ledger
+						return
+					}
+					for _, m := range res.minors {
+						allocs = append(allocs, strconv.Itoa(m))
+					}
+					g := c07Groups{T: c.toCommit(q, res)}
+					if _, isLive := c.live[T][op.a]; isLive {
+						kind = "dup"
+					} else {
+						kind = "commit"
+					}
+					nd.lock.Lock()
+					nd.updateCacheUsed(g.api(), c07Pod(op.a, nil, c07Node), true)
+					nd.lock.Unlock()
+					c.noteAdd(T, op.a, g[T], c.cur)
+				}
+			}) {
+				panicked = true
+				break
+			}
+			c.cur = c07Read(c.nd())
+		}
+		h.Op("xh %d %s", len(hist), strings.Join(toks, " "))
+		if panicked {
+			h.Obs("panic")
+			h.End()
+			return
+		}
+		dev := func(m int) string {
+			row := c.cur.row(T, m)
+			return fmt.Sprintf("%d %d %d", row.t[0], row.f[0], row.u[0])
+		}
+		pod := func(p int) string {
+			e, ok := c.cur.pods[[2]int{T, p}]
+			if !ok {
+				return "-"
+			}
+			ms := make([]int, 0, len(e))
+			for m := range e {
+				ms = append(ms, m)
+			}
+			sort.Ints(ms)
+			out := strconv.Itoa(len(ms))
+			for _, m := range ms {
+				out += fmt.Sprintf(" %d %d", m, e[m][0])
+			}
+			return out
+		}
+		h.Obs("xh %s %s | %s %s | 1 %d %d | %s", dev(0), dev(1), pod(1), pod(2), vB(c.histX), vB(c.sched), strings.Join(allocs, " "))
+		c.checkLedger(kind, before, c.cur)
+		c.checkHyp(c.cur)
+		h.Tag("last:" + kind)
+		if len(hist) >= 2 {
+			h.Nontrivial()
+		}
+		h.End()
+	}
+	var rec func(hist []c07XOp, n int)
+	rec = func(hist []c07XOp, n int) {
+		if len(hist) == n {
+			run(hist)
+			return
+		}
+		for _, op := range alphabet {
+			rec(append(hist, op), n)
+		}
+	}
+	for n := 1; n <= maxLen; n++ {
+		rec(make([]c07XOp, 0, n), n)
+	}
+	h.Extra("exhaustive", fmt.Sprintf("all histories of 1..%d ops over 2 devices x 2 pods x amounts {0,50,100} (alphabet %d): %d cases", maxLen, len(alphabet), idx))
+	h.Close("exhaustive enumeration of every history of 1-4 ops over 2 RDMA devices, 2 pods, amounts {0,50,100}: add / remove (caller-supplied) / refresh / allocate+commit; " +
+		"final ledger observed, ledger oracle on the last step; non-trivial = at least 2 ops")
 }
